@@ -257,3 +257,105 @@ def run_impl(case):
     except Exception as e:  # noqa
         return exc_code(e)
     raise ValueError(f"bad op {op}")
+
+
+# ------------------------------------------------------------------ shrinking of failing cases
+
+
+def _variants(v):
+    """smaller variants of a nested case value (ints / bytes / lists / None), most aggressive first"""
+    if isinstance(v, (bytes, bytearray)):
+        b = bytes(v)
+        n = len(b)
+        if n == 0:
+            return
+        yield b""
+        if n > 1:
+            yield b[: n // 2]
+            yield b[n // 2:]
+            yield b[:-1]
+            yield b[1:]
+        for i, c in enumerate(b[:64]):
+            if c not in (0x61, 0):
+                yield b[:i] + b"a" + b[i + 1:]
+    elif isinstance(v, list):
+        n = len(v)
+        if n > 1:
+            yield v[: n // 2]
+            yield v[n // 2:]
+        for i in range(min(n, 40)):
+            yield v[:i] + v[i + 1:]
+        for i in range(min(n, 40)):
+            for x in _variants(v[i]):
+                yield v[:i] + [x] + v[i + 1:]
+    elif isinstance(v, int) and not isinstance(v, bool):
+        if v > 0:
+            yield 0
+            yield v // 2
+            yield v - 1
+
+
+def shrink_case(case, still_fails, budget=400, seconds=3.0):
+    """Greedy shrink: keep the op code (case[0]); accept a smaller variant of the arguments while
+    `still_fails(candidate)` holds.  Bounded by `budget` evaluations and `seconds`."""
+    import time
+
+    t0 = time.time()
+    cur = list(case)
+    used = 0
+    progress = True
+    while progress and used < budget and time.time() - t0 < seconds:
+        progress = False
+        for i in range(1, len(cur)):
+            for x in _variants(cur[i]):
+                if used >= budget or time.time() - t0 >= seconds:
+                    break
+                used += 1
+                cand = cur[:i] + [x] + cur[i + 1:]
+                try:
+                    ok = still_fails(cand)
+                except Exception:  # noqa
+                    ok = False
+                if ok:
+                    cur = cand
+                    progress = True
+                    break
+            if progress:
+                break
+    return cur
+
+
+_SHRUNK = [0]
+
+
+def with_shrinking(mod_name, raw_oracle, max_shrinks=6):
+    """wrap an oracle: the first few failures of a run are re-run on smaller variants of the case;
+    the smallest variant that still fails in the same way is stored as the failure's case
+    (the replay then shows a minimal input; the original is kept as `original_case`)"""
+    import lib
+
+    def oracle(ctx, kind, case, out):
+        F = raw_oracle(ctx, kind, case, out) or []
+        if not F or _SHRUNK[0] >= max_shrinks:
+            return F
+        _SHRUNK[0] += 1
+        mod = __import__(mod_name)
+        what = F[0].get("what")
+
+        def fails(cand):
+            cand = lib.normalize(cand)
+            o = lib.normalize(lib.safe_impl(mod, cand))
+            return any(f.get("what") == what for f in (raw_oracle(ctx, kind, cand, o) or []))
+
+        small = lib.normalize(shrink_case(case, fails))
+        if small != case:
+            o = lib.normalize(lib.safe_impl(mod, small))
+            G = [f for f in (raw_oracle(ctx, kind, small, o) or []) if f.get("what") == what]
+            if G:
+                g = G[0]
+                g["case"] = small
+                g["original_case"] = case
+                return [g] + F[1:]
+        return F
+
+    return oracle
